@@ -26,3 +26,12 @@ check("C07", "exploration", "small-scope exhaustive enumeration of populations x
       "Every multiset population over a 7-value log-weight alphabet (N=2,3,4,6) x 4 current temperatures x 6 targets (scalar and ramp) x 3 tolerances x 2 floors is passed to the real determine_beta; since ESS is non-increasing in the step (proved in DESIGN.md), 'largest temperature meeting the target within tolerance' is decided exactly by ESS(beta_new)/N >= target and ESS(beta_new+tol)/N < target, recomputed with mpmath. The same post-condition is evaluated on every adaptive step of real runs explored with <=2 environment deviations.",
       "Finite alphabets; epsilon 1e-9 on efficiencies; target in force = ramp at the starting temperature.",
       "DESIGN.md 4/C07")
+
+check("C11", "fault_enumeration", "exhaustive crash-point enumeration (exception at every user-callable call index) with resume through every route and bit-for-bit comparison against the uninterrupted run",
+      "For every configuration of a grid (sampler x schedule x cadence x n_final_samples x preconditioning x seed) a fault is injected at every call index of the user's likelihood/prior of the real run; the run is resumed from the last checkpoint written before the fault as bytes, as a dict, from the file path and through Aspire.resume_from_file (real zuko flow) and must reproduce temperatures, every stored population, evidence, every history series and the final samples of the uninterrupted run exactly. The faulted run must agree with the reference up to the fault (determinism check). Thorough adds a second fault at every call of every resumed run.",
+      "Interruption = Python exception at a user-callable boundary; stub kernels (random-walk Metropolis driven only by the sampler's generator / deterministic sweep); N=8 particles.",
+      "DESIGN.md 4/C11")
+check("C18", "exploration", "invariant checking on every execution of a deviation-bounded exploration of the SMC loop and on every resumed run of a crash/resume enumeration",
+      "The history produced by the real sampler is checked in every explored execution (<=2 environment deviations x schedule-option grid) and in every run resumed from every checkpoint: one entry per iteration in every populated series, sample_history = initial population followed by one population per iteration with matching temperatures, and recorded temperature / ESS / ESS at beta=1 / incremental log-ratio equal to their definitions recomputed with mpmath from the neighbouring stored populations.",
+      "Stub kernels; N<=8.",
+      "DESIGN.md 4/C18")
